@@ -192,6 +192,22 @@ Fixpoint loadv (fuel : nat) (d : db) (vis : list str) (n : str) : res :=
 Definition resolve (fixed : bool) (fuel : nat) (d : db) (n : str) : res :=
   if fixed then loadv fuel d [] n else load fuel d n.
 
+(* A Loader that is used for several requests keeps a cache of the descriptions
+   it has read; LoadRaw looks there first.  cache ++ d is that lookup order.
+   upd says which entries a request adds to the cache. *)
+Fixpoint run_ops (fuel : nat) (d : db) (upd : db -> str -> db) (cache : db) (ops : list str) : list res :=
+  match ops with
+  | [] => []
+  | n :: ops' => loadv fuel (cache ++ d) [] n :: run_ops fuel d upd (upd cache n) ops'
+  end.
+
+(* the requested description is remembered when it exists (LoadRaw: l.cache[name] = &config) *)
+Definition cache_requested (d : db) (cache : db) (n : str) : db :=
+  match lookup (cache ++ d) n with
+  | Some r => (n, r) :: cache
+  | None => cache
+  end.
+
 (* ---------- the specification side: linearisation ---------- *)
 
 (* lin n = concat (map lin parents) ++ [n], as a relation: Lin d n l holds
